@@ -53,6 +53,9 @@ type c15Op struct {
 	// GoEntry: the wrapper chain is the ENTRY of a fresh goroutine (`go wrapper(…)`), so that a caller skip can land on the
 	// last frames of the goroutine's stack (the entry function, runtime.goexit)
 	GoEntry bool `json:"goentry,omitempty"`
+	// Ctor "nop": the logger is zap.NewNop().WithOptions(WrapCore(→ the recording core), …) instead of zap.New(core, …), and
+	// with an empty "stack" set no AddStacktrace option is given at all: the constructor's own default must attach no stack
+	Ctor string `json:"ctor,omitempty"`
 }
 
 func init() {
@@ -559,7 +562,18 @@ func c15Observe(op c15Op) (o c15Obs) {
 		if !op.NoCaller {
 			opts = append(opts, zap.AddCaller())
 		}
-		var lg *zap.Logger = zap.New(core, opts...)
+		var lg *zap.Logger
+		if op.Ctor == "nop" {
+			// drop AddStacktrace: "no level configured" is the default. Named levels only: the default threshold is the Level
+			// FatalLevel+1 used as an enabler, so an entry at the out-of-range level 6 or above does get a stack from an
+			// unconfigured logger (observed on the unchanged tree, deliberately not flagged)
+			if len(op.Stack) == 0 && c15FELevel(op.FE, op.Lvl) <= 5 {
+				opts = append(opts[:2:2], opts[3:]...)
+			}
+			lg = zap.NewNop().WithOptions(append([]zap.Option{zap.WrapCore(func(zapcore.Core) zapcore.Core { return core })}, opts...)...)
+		} else {
+			lg = zap.New(core, opts...)
+		}
 		var sg *zap.SugaredLogger
 		for _, d := range op.Chain {
 			switch d.D {
@@ -1086,9 +1100,16 @@ func c15Gen(r *Rand, tier string, emit func(op any)) {
 			return depth // the matching AddCallerSkip
 		}
 	}
+	mkN := 0
 	mk := func(k, fe string, ch []c15D, skip, depth int) c15Op {
 		op := c15Op{K: k, FE: fe, Chain: ch, Skip: skip, Depth: depth, Lvl: Pick(r, lvls), Min: Pick(r, mins),
 			Stack: Pick(r, stackSets), NoCaller: r.Chance(1, 12)}
+		if mkN++; mkN%5 == 0 { // no PRNG draw: the other ops stay what they were
+			op.Ctor = "nop"
+			if mkN%10 == 0 {
+				op.Stack = []int{} // no AddStacktrace at all (mutants logger.go#5/#6: NewNop started with stacks from Panic / Fatal on)
+			}
+		}
 		if strings.HasPrefix(fe, "stdat.") || strings.HasPrefix(fe, "redirat.") {
 			op.Lvl = Pick(r, []int{-1, 0, 1, 2, 3, 4, 5}) // NewStdLogAt accepts the seven named levels only
 		}
